@@ -140,6 +140,16 @@ func c05compare(req, impl, model string) bool {
 func c05before(c *Ctx, a, b gdate) {
 	da, db := a.Date(), b.Date()
 	bef, aft := da.IsBefore(db), da.IsAfter(db)
+	// the range-end flag must not matter: before/after compare dates, not instants
+	for _, fl := range [][2]bool{{false, true}, {true, false}, {true, true}} {
+		xa, xb := da, db
+		xa.IsEndOfRange, xb.IsEndOfRange = fl[0], fl[1]
+		if b2, a2 := xa.IsBefore(xb), xa.IsAfter(xb); b2 != bef || a2 != aft {
+			c.Oracle("", "IsBefore/IsAfter depend on the IsEndOfRange flags of the operands",
+				map[string]interface{}{"a": a.String(), "b": b.String(), "a_is_end": fl[0], "b_is_end": fl[1]},
+				bit(b2)+bit(a2), bit(bef)+bit(aft)+" (both flags false)")
+		}
+	}
 	tag := ""
 	if gran(a) == gran(b) {
 		tag = " same"
